@@ -62,4 +62,4 @@ class Registry:
 
 REGISTRY = Registry()
 
-from . import core, containers, iterators, strings, extern, crypto, sqlite, http  # noqa: E402,F401
+from . import core, containers, iterators, strings, extern, crypto, sqlite, http, serde_de  # noqa: E402,F401
